@@ -21,6 +21,7 @@ INVARIANT IndexRow
 INVARIANT IndexCol
 INVARIANT ScoreLaw
 INVARIANT WithvecOK
+INVARIANT FindLatticeOK
 INVARIANT MinkSane
 INVARIANT Emit
 PROPERTY Variant
